@@ -55,7 +55,7 @@ theorem nameLoop_print : ∀ (cs : List Nat) (fuel : Nat) (acc orig rest : List 
   | nil =>
     intro fuel acc orig rest _ hf
     obtain ⟨f, rfl⟩ : ∃ f, fuel = f + 1 := ⟨fuel - 1, by simp at hf; omega⟩
-    simp [nameLoop, nameChar, isChar]
+    simp [nameLoop]
   | cons d ds ih =>
     intro fuel acc orig rest ht hf
     obtain ⟨f, rfl⟩ : ∃ f, fuel = f + 1 := ⟨fuel - 1, by simp at hf; omega⟩
